@@ -355,6 +355,11 @@ func checkC07(c c07Case) string {
 			ev.Excluded("text-not-representable-in-" + dstFmt)
 			return ""
 		}
+		// and so must the times: an EBU STL timecode keeps its hours in one byte
+		if dstFmt == "stl" && (e.S >= 256*nsHour || e.E >= 256*nsHour) {
+			ev.Excluded("time-beyond-the-stl-timecode-field")
+			return ""
+		}
 	}
 	back, err := astisub.OpenFile(dstPath)
 	if err != nil {
